@@ -146,7 +146,7 @@ def run(rep, tier, seed):
     zoo = models.zoo()
     names = list(zoo)
     if tier == "quick":
-        keep = ["ae_basic", "dae_ts", "fdae_heat", "dae_ts_index", "ae_consts"]
+        keep = ["ae_basic", "dae_ts", "fdae_heat", "dae_ts_index", "ae_consts", "ae_trigger_smooth"]
         extra = [n for n in names if n not in keep]
         names = keep + list(rng.permutation(extra)[:1])
     tmp = tempfile.mkdtemp(prefix="c03_")
